@@ -65,7 +65,7 @@ def unlex(t, s):
     if issubclass(t, Uuid):
         return uuid.UUID(s)
     if issubclass(t, ByteArray):
-        return base64.b64decode(s)
+        return base64.b64decode(s, validate=True)
     if issubclass(t, Duration):
         neg = s.startswith('-')
         body = s.lstrip('-')[1:]
@@ -103,6 +103,13 @@ def declared_members(t):
                 seen.add(name)
                 out.append((klass, name, ft))
     return out
+
+
+def wire(owner, name, ft):
+    """(namespace, local name) under which member `name` of class `owner` travels: sub_ns / sub_name override the
+    declaring class' namespace / the attribute name."""
+    a = ft.Attributes
+    return (getattr(a, 'sub_ns', None) or owner.get_namespace()), (getattr(a, 'sub_name', None) or name)
 
 
 def tag(ns, name):
@@ -143,7 +150,8 @@ def _encode_one(parent, t, v, name, ns):
                 _encode_one(e, itype, item, iname, ns)
     elif issubclass(t, ComplexModelBase):
         for owner, k, ft in declared_members(t):
-            encode_into(e, ft, getattr(v, k, None), k, owner.get_namespace())
+            wns, wname = wire(owner, k, ft)
+            encode_into(e, ft, getattr(v, k, None), wname, wns)
     else:
         e.text = lex(t, v)
 
@@ -171,7 +179,8 @@ def _decode_one(e, t):
     if issubclass(t, ComplexModelBase):
         out = {}
         for owner, k, ft in declared_members(t):
-            out[k] = decode_from(e, ft, k, owner.get_namespace())
+            wns, wname = wire(owner, k, ft)
+            out[k] = decode_from(e, ft, wname, wns)
         return out
     return unlex(t, ''.join(e.itertext()) if len(e) == 0 or all(not isinstance(ch.tag, str) for ch in e) else e.text)
 
